@@ -144,6 +144,32 @@ theorem runSites_false_failed (v : Variant) (c : Cfg) :
       · obtain ⟨x, hx, hf⟩ := ih _ _ _ _ _ h
         exact ⟨x, List.mem_cons_of_mem _ hx, hf⟩
 
+/-- A phase that fails reports one of its own sites, and that site is the last one the run executed. -/
+theorem runSites_false_failed_last (v : Variant) (c : Cfg) :
+    ∀ (sites : List Site) (skip : Nat) (fs : List Bool) (t : Trace) (fs' : List Bool) (t' : Trace),
+      runSites v c skip sites fs t = (false, fs', t') →
+        ∃ s, s ∈ sites ∧ t'.failed = some s ∧ t'.ran.getLast? = some s := by
+  intro sites
+  induction sites with
+  | nil => intro skip fs t fs' t' h; cases skip <;> simp [runSites] at h
+  | cons s rest ih =>
+    intro skip fs t fs' t' h
+    cases skip with
+    | succ k =>
+      simp only [runSites] at h
+      obtain ⟨x, hx, hf⟩ := ih k fs t fs' t' h
+      exact ⟨x, List.mem_cons_of_mem _ hx, hf⟩
+    | zero =>
+      simp only [runSites] at h
+      split at h
+      · split at h
+        · simp only [Prod.mk.injEq, true_and] at h
+          exact ⟨s, List.mem_cons_self, by rw [← h.2], by rw [← h.2]; simp⟩
+        · obtain ⟨x, hx, hf⟩ := ih _ _ _ _ _ h
+          exact ⟨x, List.mem_cons_of_mem _ hx, hf⟩
+      · obtain ⟨x, hx, hf⟩ := ih _ _ _ _ _ h
+        exact ⟨x, List.mem_cons_of_mem _ hx, hf⟩
+
 /-- Without a fault in reach the walk is the fault-free walk (every variant). -/
 theorem runSites_clean (v : Variant) (c : Cfg) :
     ∀ (sites : List Site) (fs : List Bool) (t : Trace), allFalse sites.length fs →
@@ -382,5 +408,13 @@ theorem safe_body_fixed (c : Cfg) (fs : List Bool) (t : Trace) (ok : Bool) (fs' 
         · exact Or.inr hs
       · exact Or.inl (runSites_absName _ _ _ _ _ _ _ _ _ h (by simp [effect]))
 
+
+/-- the script `single k` (one fault, at position `k`) has no fault before `k` … -/
+theorem allFalse_single (k : Nat) : allFalse k (single k) := by
+  intro i hi; simp [single, List.getD_eq_getElem?_getD, List.getElem?_append, hi]
+
+/-- … and one at `k` -/
+theorem single_getD (k : Nat) : (single k).getD k false = true := by
+  simp [single, List.getD_eq_getElem?_getD]
 
 end Sqfs.FailStop
